@@ -240,10 +240,23 @@ impl Transformed {
     /// Print a module the way the real pipeline would after the plugin: hygiene, fixer, codegen.
     pub fn print_final(&self, m: &Module) -> Result<String, String> {
         let mut m = m.clone();
+        let comments = deep_clone_comments(&self.comments);
         quiet_catch(|| {
             m.visit_mut_with(&mut hygiene());
-            m.visit_mut_with(&mut fixer(Some(&self.comments)));
-            print_module(&self.cm, &m, Some(&self.comments))
+            m.visit_mut_with(&mut fixer(Some(&comments)));
+            print_module(&self.cm, &m, Some(&comments))
+        })
+    }
+
+    /// Like `print_final` but without comments (comment placement does not survive swc's own
+    /// print / parse round trip, so text comparisons across a re-parse ignore comments).
+    pub fn print_final_nocomments(&self, m: &Module) -> Result<String, String> {
+        let mut m = m.clone();
+        let comments = deep_clone_comments(&self.comments);
+        quiet_catch(|| {
+            m.visit_mut_with(&mut hygiene());
+            m.visit_mut_with(&mut fixer(Some(&comments)));
+            print_module(&self.cm, &m, None)
         })
     }
 
@@ -258,11 +271,26 @@ impl Transformed {
     }
 }
 
+/// codegen *takes* comments out of the store while printing: print from a deep copy
+fn deep_clone_comments(c: &SingleThreadedComments) -> SingleThreadedComments {
+    let (l, t) = c.borrow_all();
+    let l2 = (*l).clone();
+    let t2 = (*t).clone();
+    drop(l);
+    drop(t);
+    SingleThreadedComments::from_leading_and_trailing(
+        std::rc::Rc::new(std::cell::RefCell::new(l2)),
+        std::rc::Rc::new(std::cell::RefCell::new(t2)),
+    )
+}
+
 pub fn print_module(
     cm: &Lrc<SourceMap>,
     m: &Module,
     comments: Option<&SingleThreadedComments>,
 ) -> String {
+    let copy = comments.map(deep_clone_comments);
+    let comments = copy.as_ref();
     let mut buf = vec![];
     {
         let wr = JsWriter::new(cm.clone(), "\n", &mut buf, None);
@@ -573,4 +601,9 @@ pub fn generated_ident_counts(t: &Transformed) -> Vec<(String, usize)> {
         raw.visit_with(&mut c);
     }
     c.counts.into_iter().map(|((s, _), n)| (s, n)).collect()
+}
+
+/// serde JSON of a module (swc's `serde-impl`), for the generic AST comparer.
+pub fn module_json(m: &Module) -> serde_json::Value {
+    serde_json::to_value(m).unwrap_or(serde_json::Value::Null)
 }
